@@ -69,7 +69,9 @@ func init() {
 	// Configuration corner: a bucket size so large that K peer records of 8 KiB
 	// no longer fit the transport limit (K is free for non-Amino prefixes).
 	sim.Register(&sim.Scenario{Prop: "C09", Name: "server-huge-k", Weight: 1, Run: func(s *sim.Sim) { runC09(s, c09HugeK) },
-		Real: real, Stub: stub, Faults: []string{"probe_huge_k_response", "probe_closer_cut_by_transport_limit", "probe_cut_list_plus_target", "probe_cut_list_plus_big_target"}})
+		Real: real, Stub: stub, Faults: []string{"probe_huge_k_response", "probe_closer_cut_by_transport_limit", "probe_cut_list_plus_target", "probe_cut_list_plus_big_target", "probe_cut_list_many_connected"}})
+	// (server-fill, responses filled to the last bytes from providers the node is
+	// connected to, is registered in c09_fill.go)
 	sim.Register(&sim.Scenario{Prop: "C09", Name: "server-bulk", Weight: 2, Run: func(s *sim.Sim) { runC09(s, c09Bulk) },
 		Real: real, Stub: stub, Faults: []string{"probe_budget_truncated", "probe_record_trimmed", "probe_bulk_providers_served", "probe_max_size_frame_answered"}})
 }
@@ -79,6 +81,7 @@ const (
 	c09Modes
 	c09Bulk
 	c09HugeK
+	c09Fill // c09_fill.go
 )
 
 // c09MaxPeerRecord is the per-record bound stated by the property ("every peer
@@ -187,7 +190,7 @@ func runC09(s *sim.Sim, variant int) {
 
 func (w *c09World) setup() {
 	s := w.s
-	bulk := w.variant == c09Bulk || w.variant == c09HugeK
+	bulk := w.heavy()
 	huge := w.variant == c09HugeK
 	w.seed = uint64(s.Draw("universe", 1<<16))
 	w.nseed = w.seed*0x9e3779b97f4a7c15 + 12345
@@ -256,9 +259,16 @@ func (w *c09World) setup() {
 	if maxAge > 0 {
 		opts = append(opts, dht.MaxRecordAge(maxAge), dht.ValueGCInterval(45*time.Second))
 	}
+	var pmOpts []records.Option
 	if provValidity > 0 {
 		w.expiry = true
-		opts = append(opts, dht.ProviderManagerOpts(records.ProvideValidity(provValidity), records.CleanupInterval(70*time.Second)))
+		pmOpts = append(pmOpts, records.ProvideValidity(provValidity), records.CleanupInterval(70*time.Second))
+	}
+	if w.variant == c09Fill {
+		pmOpts = append(pmOpts, records.Cache(c09NoCache{})) // see c09_fill.go
+	}
+	if len(pmOpts) > 0 {
+		opts = append(opts, dht.ProviderManagerOpts(pmOpts...))
 	}
 	if w.filter {
 		opts = append(opts, dht.AddressFilter(c09Filter))
@@ -337,6 +347,17 @@ func (w *c09World) setup() {
 			w.prefill(p.ID, c09FatAddrs(n), peerstore.PermanentAddrTTL)
 		}
 		_, _ = d.RoutingTable().TryAddPeer(p.ID, true, false)
+	}
+	if huge {
+		// Which members the node has a connection to: the record of a connected
+		// peer carries a connection type and is that much larger on the wire
+		// (see c09_fill.go; there for provider records, here for closer peers).
+		hc := s.Draw("huge-members-connected", 3) // 0 none, 1 all, 2 about half
+		for _, p := range rtPeers {
+			if hc == 1 || (hc == 2 && mixRng.next()&1 == 0) {
+				w.h.Net().SetConnected(p.ID, true)
+			}
+		}
 	}
 	for _, p := range w.extras {
 		// known non-members always have an address; how much is drawn
@@ -420,6 +441,9 @@ func (w *c09World) setup() {
 		for i := 0; i < w.nBig; i++ {
 			addProv(w.bigKey, simnet.MakeID(w.seed, 5000+i), fat)
 		}
+	}
+	if w.variant == c09Fill {
+		w.setupFill(addProv)
 	}
 	s.Quiesce()
 
@@ -544,7 +568,7 @@ func (st *c09Stream) write(data []byte) {
 
 func (w *c09World) loop() {
 	s := w.s
-	bulk := w.variant == c09Bulk || w.variant == c09HugeK
+	bulk := w.heavy()
 	maxStreams := 2 + s.Draw("max-streams", 5)
 	if bulk {
 		maxStreams = 1 + s.Draw("max-streams", 2)
@@ -723,7 +747,13 @@ func (w *c09World) allDone() bool {
 			return false
 		}
 	}
-	return len(w.streams) >= 2 || w.variant == c09Bulk || w.variant == c09HugeK
+	return len(w.streams) >= 2 || w.heavy()
+}
+
+// heavy: the variants whose responses are megabytes long (fewer streams and
+// items per run, no parked response writes, no wire-level damage).
+func (w *c09World) heavy() bool {
+	return w.variant == c09Bulk || w.variant == c09HugeK || w.variant == c09Fill
 }
 
 func (w *c09World) sleep(d time.Duration) {
